@@ -84,7 +84,11 @@ func NewWorld(n int, seed uint64) (*World, error) {
 	}
 	// identities: one per replica, all written on replica 0 and distributed
 	r0 := w.Replicas[0]
-	for i := 0; i < n; i++ {
+	nIdent := n
+	if nIdent < 3 {
+		nIdent = 3
+	}
+	for i := 0; i < nIdent; i++ {
 		id, _, _, err := ondisk.WriteIdentity(r0.Repo, "", []ondisk.IdentityVersion{{
 			Version: 2, UnixTime: 1600000000 + int64(i), Name: fmt.Sprintf("user%d", i),
 			Email: fmt.Sprintf("user%d@example.org", i), Nonce: NonceFor(seed, 1_000_000+i),
